@@ -186,6 +186,7 @@ def generate(rng: random.Random, tier: str) -> dict:
             "optimize": rng.random() < 0.7,
             "task_transport": rng.random() < 0.3,
             "stall": rng.choice([0.0, 0.0, 0.1]),
+            "trace": rng.choice(["seams", "lines"]),
         }
     return {"config": config, "workload": {"subs": subs}}
 
